@@ -2,6 +2,8 @@
 //! properties: C18
 //! note: BOLT-12 stateless metadata (offers/signer.rs): a recipient's or payer's metadata verifies only if it is the HMAC, under this node's offers key, of exactly (the IV of the message kind, the nonce carried in the metadata, every TLV record of the object in order, the domain tags, and for a payer the encrypted payment id) -- or, for derived signing keys, if the object's signing key is the key derived from that HMAC; an object built against an altered copy, or presented under another node's key material, changes the HMAC input or key
 //! trusted: env: HMAC-SHA256 is uninterpreted: HmacEngine is a stub that records key and the concatenation of its inputs in ghost fields, Hmac::from_engine is hmac_sha256(key, data); fixed_time_eq is equality of byte strings; SecretKey::from_slice(hash) succeeds (a SHA256 output is a valid key, as the source's unwrap assumes), Keypair::from_secret_key / public_key / serialize give the uninterpreted pubkey_of; ExpandedKey skeleton {offers_base_key} with hmac_for_offer re-declared; Nonce(pub [u8; 16]); TlvRecord skeleton {record_bytes}
+//! plemma: C18 lemma_recipient_metadata_round_trip / lemma_payer_metadata_round_trip: the metadata derive_metadata writes (nonce ‖ HMAC, preceded by the encrypted payment id for a payer) is accepted by verify_recipient_metadata / verify_payer_metadata_inner for the same key, IV and TLV records
+//! trusted: creating side: `tlv_stream: W` (a Writeable TLV stream written into the HMAC engine) is taken as TlvBytes, whose write feeds its bytes to the engine; that these bytes are the concatenation of the records the verifier iterates is assumed (definition of TlvStream); R5: `mut self` (unsupported by Verus) is taken as a by-value parameter bound to a mutable local, `self` renamed accordingly; R7: `opt.map(|id| id.to_vec()).unwrap_or_default()` is written as a match (std semantics; Verus gives closures no specification)
 //! trusted: R5: `tlv_stream: impl Iterator<Item = TlvRecord<'a>>` is taken as `&Vec<TlvRecord<'a>>` (the records in iteration order) and `for record in tlv_stream` iterates it (R6); R8: slice plumbing Verus has no specification for goes through external_body wrappers with the std meaning: `&metadata[N..]` -> tail_from, `Nonce::try_from(&metadata[..Nonce::LENGTH])?` -> nonce_prefix (the first 16 bytes), `x.copy_from_slice(&metadata[..PaymentId::LENGTH])` -> copy_prefix32; R1: the four `const X: &[u8; 16] = &[b; 16];` domain tags are declared `exec const` with their value as postcondition (Verus cannot evaluate an array-repeat expression in a dual-mode const); R2: `#[cfg(fuzzing)]` statements dropped, `cfg!(fuzzing)` is false
 use vstd::prelude::*;
 verus! {
@@ -175,5 +177,109 @@ pub open spec fn metadata_accepts(metadata: Seq<u8>, hmac: [u8; 32], signing_pub
 //@with
     
 //@end
+
+// ---- the creating side: MetadataMaterial ---------------------------------------------------------------------
+// the serialized TLV stream a builder hands over; assumed to be the concatenation of the records the verifier iterates
+pub struct TlvBytes { pub bytes: Vec<u8> }
+impl TlvBytes { #[verifier::external_body] pub fn write(&self, h: &mut HmacEngine) -> (r: Result<(), SecpError>)
+    ensures r is Ok, final(h).key@ == old(h).key@, final(h).data@ == old(h).data@ + self.bytes@ { unimplemented!() } }
+impl Nonce { pub fn as_slice(&self) -> (r: &[u8]) ensures r@ == self.0@ { &self.0 } }
+#[verifier::external_body] pub fn arr32_to_vec(a: [u8; 32]) -> (r: Vec<u8>) ensures r@ == a@ { unimplemented!() }
+pub struct MetadataMaterial { pub nonce: Nonce, pub hmac: HmacEngine, pub encrypted_payment_id: Option<[u8; 32]> }
+pub open spec fn tag(b: u8) -> Seq<u8> { Seq::new(16, |i: int| b) }
+pub open spec fn id_tail(id: Option<[u8; 32]>) -> Seq<u8> { match id { None => tag(3), Some(e) => tag(4) + e@ } }
+pub open spec fn id_prefix(id: Option<[u8; 32]>) -> Seq<u8> { match id { None => Seq::empty(), Some(e) => e@ } }
+// what the creating side feeds the HMAC
+pub open spec fn created_hmac_input(iv: Seq<u8>, nonce: Seq<u8>, tlv_bytes: Seq<u8>, kind: u8, id: Option<[u8; 32]>) -> Seq<u8> {
+    ((((Seq::<u8>::empty() + iv) + nonce) + tlv_bytes) + tag(kind)) + id_tail(id)
+}
+impl MetadataMaterial {
+//@extract lightning/src/offers/signer.rs :: impl MetadataMaterial :: fn maybe_include_encrypted_payment_id
+//@ensures A
+    final(self).hmac.key@ == old(self).hmac.key@, final(self).nonce == old(self).nonce, final(self).encrypted_payment_id == old(self).encrypted_payment_id,
+    final(self).hmac.data@ =~= old(self).hmac.data@ + id_tail(old(self).encrypted_payment_id),
+//@end
+//@extract lightning/src/offers/signer.rs :: impl MetadataMaterial :: fn derive_metadata
+//@rw R5
+    fn derive_metadata<W: Writeable>(mut self, iv_bytes: &[u8; IV_LEN], tlv_stream: W)
+//@with
+    fn derive_metadata(this_: MetadataMaterial, iv_bytes: &[u8; IV_LEN], tlv_stream: &TlvBytes)
+//@rw * R5
+    self
+//@with
+    this
+//@at body_start
+    let mut this = this_;
+//@rw R7
+    $s:ident.encrypted_payment_id.map(|id| id.to_vec()).unwrap_or_default()
+//@with
+    match $s.encrypted_payment_id { Some(id) => arr32_to_vec(id), None => Vec::new() }
+//@ret r
+//@requires
+    this_.hmac.data@ == Seq::<u8>::empty(),
+//@ensures P C18 the-metadata-a-builder-writes-is-the-nonce-and-the-hmac-of-exactly-what-the-verifier-recomputes
+    r@ =~= (id_prefix(this_.encrypted_payment_id) + this_.nonce.0@) + hmac_sha256(this_.hmac.key@, created_hmac_input(iv_bytes@, this_.nonce.0@, tlv_stream.bytes@, 1, this_.encrypted_payment_id))@,
+//@mutant builder_uses_the_tag_of_the_derived_key_kind
+    .hmac.input(DERIVED_METADATA_HMAC_INPUT);
+//@with
+    .hmac.input(DERIVED_METADATA_AND_KEYS_HMAC_INPUT);
+//@end
+//@extract lightning/src/offers/signer.rs :: impl MetadataMaterial :: fn derive_metadata_and_keys
+//@rw R5
+    fn derive_metadata_and_keys<W: Writeable, T: secp256k1::Signing>( mut self, iv_bytes: &[u8; IV_LEN], tlv_stream: W, secp_ctx: &Secp256k1<T>, )
+//@with
+    fn derive_metadata_and_keys( this_: MetadataMaterial, iv_bytes: &[u8; IV_LEN], tlv_stream: &TlvBytes, secp_ctx: &Secp256k1, )
+//@rw * R5
+    self
+//@with
+    this
+//@at body_start
+    let mut this = this_;
+//@rw R7
+    $s:ident.encrypted_payment_id.map(|id| id.to_vec()).unwrap_or_default()
+//@with
+    match $s.encrypted_payment_id { Some(id) => arr32_to_vec(id), None => Vec::new() }
+//@ret r
+//@requires
+    this_.hmac.data@ == Seq::<u8>::empty(),
+//@ensures P C18 the-signing-key-a-builder-derives-is-the-key-of-the-hmac-of-exactly-what-the-verifier-recomputes
+    r.0@ =~= id_prefix(this_.encrypted_payment_id) + this_.nonce.0@,
+    r.1.secret == hmac_sha256(this_.hmac.key@, created_hmac_input(iv_bytes@, this_.nonce.0@, tlv_stream.bytes@, 2, this_.encrypted_payment_id)),
+//@end
+}
+// round trip: what derive_metadata writes for an offer (no payment id) is accepted by verify_recipient_metadata for the same
+// key, IV and TLV records; for a payer (payment id) by verify_payer_metadata_inner
+pub proof fn lemma_recipient_metadata_round_trip(key: [u8; 32], iv: Seq<u8>, nonce: Seq<u8>, tlvs: Seq<TlvRecord>, pk: u64)
+    requires nonce.len() == 16
+    ensures ({
+        let h = hmac_sha256(key, created_hmac_input(iv, nonce, records(tlvs), 1, None));
+        let md = (Seq::<u8>::empty() + nonce) + h@;
+        md.len() >= 16 && metadata_accepts(md, hmac_sha256(key, message_hmac_input(md, iv, tlvs) + tag(3)), pk)
+    })
+{
+    let h = hmac_sha256(key, created_hmac_input(iv, nonce, records(tlvs), 1, None));
+    let md = (Seq::<u8>::empty() + nonce) + h@;
+    assert(md.subrange(0, 16) =~= nonce);
+    assert(md.subrange(16, 48) =~= h@);
+    assert(message_hmac_input(md, iv, tlvs) + tag(3) =~= created_hmac_input(iv, nonce, records(tlvs), 1, None));
+}
+pub proof fn lemma_payer_metadata_round_trip(key: [u8; 32], iv: Seq<u8>, nonce: Seq<u8>, tlvs: Seq<TlvRecord>, id: [u8; 32], pk: u64)
+    requires nonce.len() == 16
+    ensures ({
+        let h = hmac_sha256(key, created_hmac_input(iv, nonce, records(tlvs), 1, Some(id)));
+        let md = (id@ + nonce) + h@;
+        md.len() >= 48 && metadata_accepts(md.subrange(32, md.len() as int),
+            hmac_sha256(key, (message_hmac_input(md.subrange(32, md.len() as int), iv, tlvs) + tag(4)) + md.subrange(0, 32)), pk)
+    })
+{
+    let h = hmac_sha256(key, created_hmac_input(iv, nonce, records(tlvs), 1, Some(id)));
+    let md = (id@ + nonce) + h@;
+    let t = md.subrange(32, md.len() as int);
+    assert(t =~= nonce + h@);
+    assert(t.subrange(0, 16) =~= nonce);
+    assert(t.subrange(16, 48) =~= h@);
+    assert(md.subrange(0, 32) =~= id@);
+    assert((message_hmac_input(t, iv, tlvs) + tag(4)) + md.subrange(0, 32) =~= created_hmac_input(iv, nonce, records(tlvs), 1, Some(id)));
+}
 }
 fn main() {}
